@@ -34,6 +34,14 @@ def check(repo, col, tier):
     c13.relabel(repo, col, "R-C19-relabel")
     _classify(repo, col)
     _pair(repo, col)
+    from . import c11
+    c11.keyclass_on_base(repo, col, "R-C19-keyclass")
+    # "integrate simulates the model displayed by .edges": every synapse reads from and delivers to the compartments its row names
+    from . import c09, idx as _idx
+    col.rule("R-C19-simulates", "synaptic currents are computed from and delivered to the compartments named in the edge table", 8)
+    cl = _idx.compute_slots(repo, col, "R-C19-simulates", emit=())
+    for nm in ("_step_synapse_state", "_synapse_currents"):
+        c09._roles(repo, col, cl, nm, "R-C19-simulates", "R-C19-simulates")
 
 
 def shared_resources(repo):
